@@ -201,9 +201,10 @@ def ceil_div(a, b): return (a + b - 1) / b
 
 class Ref_:
     """expected facts as z3 terms / python structure"""
-    def __init__(self, I, max_distance, planning=None):
+    def __init__(self, I, max_distance, planning=None, loc_idx=None, type_idx=None):
         sh = I.sh; self.I = I
-        self.loc_idx = {l: i for i, l in enumerate(sh['locs'])}; self.type_idx = {t: i for i, t in enumerate(sh['types'])}
+        # ids -> indices as the loader itself assigned them (only injectivity is required of that assignment, not input order)
+        self.loc_idx = loc_idx or {l: i for i, l in enumerate(sh['locs'])}; self.type_idx = type_idx or {t: i for i, t in enumerate(sh['types'])}
         self.trips = []          # in the order of the departures and their segments
         starts = []; ends = []
         for d in I.departures:
@@ -227,8 +228,9 @@ class Ref_:
             self.dd[(self.loc_idx[a], self.loc_idx[b])] = zmin(I.dist[(a, b)], max_distance)
         # vehicles the covering may need: per trip min(required, limit) with required = max(ceil(p/cap), ceil(s/seats))
         need = z3.IntVal(0)
+        tinv = {v: k for k, v in self.type_idx.items()}; tinfo = {x['id']: x for x in I.types}
         for t in self.trips:
-            T = I.types[t['vt']]
+            T = tinfo[tinv[t['vt']]]
             req = zmax(ceil_div(t['pax'], T['cap']), ceil_div(t['seated'], T['seats']))
             tp, tv = T['limit']; sp_, sv = t['limit']
             lim = z3.If(z3.And(tp, sp_), zmin(tv, sv), z3.If(tp, tv, z3.If(sp_, sv, req)))
@@ -338,13 +340,18 @@ def job_loader(name, tier, variant, mode='on'):
         vr = ex.call('create_vehicle_types', [ji]); vtypes, vt_lookup = vr.fields
         cfg = ex.call('create_config', [ji])
         ex.call_fn(create_network, [ji, locations, vtypes, cfg, loc_lookup, vt_lookup])
-        return I, list(rec)
+        return I, list(rec), ex.strip(loc_lookup), ex.strip(vt_lookup)
     for pc, r in J.explore(body, max_paths=20000):
         if isinstance(r, Panic): J.panic(pc, r, clause='loader: a valid instance loads without panic'); continue
-        I, calls = r; J.reached += 1
+        I, calls, ll, vl = r; J.reached += 1
         if len(calls) != 1: J.prove(pc, False, 'loader: exactly one network is built'); continue
         depots, strips, mslots, cfg, locations, vtypes = [ex.strip(a) for a in calls[0]]
-        R = Ref_(I, max_distance_value(ex), I.horizon)
+        loc_idx = {text_of(ex, k): conc(c.v.fields[0]) for k, c in ll.entries}; type_idx = {text_of(ex, k): conc(c.v.fields[0]) for k, c in vl.entries}
+        inj = sorted(loc_idx) == sorted(I.sh['locs']) and len(set(loc_idx.values())) == len(loc_idx) and None not in loc_idx.values() and \
+              sorted(type_idx) == sorted(I.sh['types']) and len(set(type_idx.values())) == len(type_idx) and None not in type_idx.values()
+        J.prove(pc, inj, 'loader: every location id and every vehicle-type id gets its own index')
+        if not inj: continue
+        R = Ref_(I, max_distance_value(ex), I.horizon, loc_idx, type_idx)
         def mk(sig, what):
             def f(m, I=I, sig=sig, what=what):
                 return dict(signature='loader: ' + sig, what=what, scenario=dict(instance=to_json(I, m), ops=[dict(op='network')]), expect=[expected_obs(I, R, m)], loader=True)
@@ -353,8 +360,8 @@ def job_loader(name, tier, variant, mode='on'):
         conj = []; ntypes = len(I.types)
         got = {}
         for k, c in strips.entries: got[conc(k.fields[0])] = ex.strip(c.v)
-        ok_shape = sorted(got) == list(range(ntypes))
-        for t in range(ntypes):
+        ok_shape = sorted(got) == sorted(type_idx.values())
+        for t in sorted(type_idx.values()):
             exp = [x for x in R.trips if x['vt'] == t]
             cells = got[t].cells if ok_shape else []
             if len(cells) != len(exp): ok_shape = False; continue
@@ -384,7 +391,7 @@ def job_loader(name, tier, variant, mode='on'):
                 for i, (c, x) in enumerate(zip(depots.cells, I.depots)):
                     v = ex.strip(c.v); S_ = lambda f: F(v, 'Depot', f)
                     l = loc_station(ex, S_('location')); al = ex.strip(S_('allowed_types'))
-                    if l is None or text_of(ex, S_('id')) != x['id'] or conc(S_('idx').fields[0]) != i: conj.append(False); continue
+                    if l is None or text_of(ex, S_('id')) != x['id'] or conc(S_('idx').fields[0]) != i: conj.append(False); continue      # Network::new requires depot i to carry index i (the overflow depot takes len)
                     conj += [l == R.loc_idx[x['loc']], Z(S_('total_capacity').e) == x['cap']]
                     keys = sorted(conc(k.fields[0]) for k, c2 in al.entries)
                     if keys != sorted(R.type_idx[tid] for tid, cp, cv in x['allowed']): conj.append(False); continue
@@ -402,7 +409,7 @@ def job_loader(name, tier, variant, mode='on'):
                     if l is None or conc(S_('idx').fields[0]) != i: conj.append(False); continue
                     seen.append(l); caps.append(Z(S_('total_capacity').e))
                     keys = sorted(conc(k.fields[0]) for k, c2 in al.entries)
-                    if keys != list(range(len(I.types))): conj.append(False); continue
+                    if keys != sorted(type_idx.values()): conj.append(False); continue
                     for k, c2 in al.entries:
                         p, x_ = M.opt_parts(ex, c2.v); conj.append(z3.Not(Z(p)))
                 if len(seen) == len(I.locs): conj.append(z3.Distinct(*seen) if len(seen) > 1 else True)
@@ -413,34 +420,36 @@ def job_loader(name, tier, variant, mode='on'):
         # ---- vehicle types
         conj = []
         vm = ex.strip(F(vtypes, 'VehicleTypes', 'vehicle_types')); ids_sorted = ex.strip(F(vtypes, 'VehicleTypes', 'ids_sorted'))
-        ok_shape = len(vm.entries) == len(I.types) and [conc(c.v.fields[0]) for c in ids_sorted.cells] == list(range(len(I.types)))
+        ok_shape = len(vm.entries) == len(I.types) and [conc(c.v.fields[0]) for c in ids_sorted.cells] == sorted(type_idx.values())
         if ok_shape:
-            for i, x in enumerate(I.types):
+            for x in I.types:
+                i = type_idx[x['id']]
                 hit = [c.v for k, c in vm.entries if conc(k.fields[0]) == i]
                 if len(hit) != 1: conj.append(False); continue
                 v = ex.strip(hit[0]);  v = ex.strip(Ref(v.fields[0])) if isinstance(v, Agg) and v.ty == 'Arc' else v
                 S_ = lambda f: F(v, 'VehicleType', f)
                 if text_of(ex, S_('id')) != x['id'] or conc(S_('idx').fields[0]) != i: conj.append(False); continue
                 conj += [Z(S_('capacity').e) == x['cap'], Z(S_('seats').e) == x['seats'], opt_eq(ex, S_('maximal_formation_count'), *x['limit'])]
-        J.prove(pc, z_and(ok_shape, *conj), 'loader: the vehicle types in input order with capacity, seats and formation limit', mk('vehicle types', 'a loaded vehicle type differs from the input'))
+        J.prove(pc, z_and(ok_shape, *conj), 'loader: every vehicle type with its id, capacity, seats and formation limit', mk('vehicle types', 'a loaded vehicle type differs from the input'))
         # ---- locations and dead-head matrices
         conj = []
         stn = ex.strip(F(locations, 'Locations', 'stations')); dh = ex.strip(F(locations, 'Locations', 'dead_head_trips'))
-        n = len(I.locs); ok_shape = sorted(conc(k.fields[0]) for k, c in stn.entries) == list(range(n)) and sorted(conc(k.fields[0]) for k, c in dh.entries) == list(range(n))
+        n = len(I.locs); idxs = sorted(loc_idx.values()); byidx = {v: k for k, v in loc_idx.items()}; locinfo = {l['id']: l for l in I.locs}
+        ok_shape = sorted(conc(k.fields[0]) for k, c in stn.entries) == idxs and sorted(conc(k.fields[0]) for k, c in dh.entries) == idxs
         if ok_shape:
             for k, c in stn.entries:
                 i = conc(k.fields[0]); tv = ex.strip(c.v)
-                if text_of(ex, tv.fields[0]) != I.locs[i]['id']: conj.append(False); continue
-                conj.append(opt_eq(ex, tv.fields[1], *I.locs[i]['day_limit']))
+                if text_of(ex, tv.fields[0]) != byidx[i]: conj.append(False); continue
+                conj.append(opt_eq(ex, tv.fields[1], *locinfo[byidx[i]]['day_limit']))
             for k, c in dh.entries:
                 a = conc(k.fields[0]); inner = ex.strip(c.v)
-                if sorted(conc(k2.fields[0]) for k2, c2 in inner.entries) != list(range(n)): conj.append(False); continue
+                if sorted(conc(k2.fields[0]) for k2, c2 in inner.entries) != idxs: conj.append(False); continue
                 for k2, c2 in inner.entries:
                     b = conc(k2.fields[0]); t = ex.strip(c2.v)
                     tt = dur_secs(ex, F(t, 'DeadHeadTrip', 'travel_time')); dd = dist_m(ex, F(t, 'DeadHeadTrip', 'distance'))
                     if tt is None or dd is None: conj.append(False); continue
                     conj += [tt == R.tt[(a, b)], dd == R.dd[(a, b)]]
-        J.prove(pc, z_and(ok_shape, *conj), 'loader: locations in input order; dead-head duration and distance of every ordered pair as given by id in the matrices (cut to the planning horizon / the maximal distance)',
+        J.prove(pc, z_and(ok_shape, *conj), 'loader: every location with its id and day limit; dead-head duration and distance of every ordered pair as given by id in the matrices (cut to the planning horizon / the maximal distance)',
                 mk('dead-head matrix', 'a dead-head duration or distance is stored for the wrong ordered pair of locations or with the wrong value'))
         # ---- config
         P = I.params
@@ -479,10 +488,10 @@ def expected_obs(I, R, m):
         if z3.is_int_value(v): return v.as_long()
         return z3.is_true(v)
     def iso(sec): return '0400-01-%02dT%02d:%02d:%02d' % (1 + sec // 86400, (sec % 86400) // 3600, (sec % 3600) // 60, sec % 60)
-    locs = [l['id'] for l in I.locs]
+    inv = {v: k for k, v in R.loc_idx.items()}; locs = {i: inv[i] for i in inv}; tinv = {v: k for k, v in R.type_idx.items()}
     nodes = {}
     for t in R.trips:
-        T = I.types[t['vt']]; tp, tv = T['limit']; sp_, sv = t['limit']
+        T = [x for x in I.types if x['id'] == tinv[t['vt']]][0]; tp, tv = T['limit']; sp_, sv = t['limit']
         lims = ([val(tv)] if val(tp) else []) + ([val(sv)] if val(sp_) else [])
         nodes[t['id']] = dict(start=iso(val(t['dep'])), end=iso(val(t['arr'])), start_location=locs[t['o']], end_location=locs[t['d']], distance=val(t['dist']),
                               type=str(t['vt']), passengers=val(t['pax']), seated=val(t['seated']), limit=min(lims) if lims else None)
@@ -492,7 +501,7 @@ def expected_obs(I, R, m):
     if I.depots is not None:
         out['depots'] = {d['id']: dict(total=val(d['cap']), location=d['loc'],
                                        per_type=[([min(val(cv), val(d['cap'])) if val(cp) else val(d['cap']) for tid, cp, cv in d['allowed'] if tid == t['id']] or [0])[0] for t in I.types]) for d in I.depots}
-    else: out['default_depot_locations'] = sorted(locs)
+    else: out['default_depot_locations'] = sorted(locs.values())
     out['travel'] = {'%s>%s' % (locs[a], locs[b]): [val(R.tt[(a, b)]), val(R.dd[(a, b)])] for (a, b) in R.tt}
     return out
 
